@@ -24,7 +24,10 @@ contract(f"{M}:RTCDataChannel._addBufferedAmount", params={"amount": "int"},
                   "len(self.emitted) == old(len(self.emitted)) + 1 and self.emitted[len(self.emitted) - 1] == 'bufferedamountlow')",
                   "implies(not (old(self.__bufferedAmount) > self.__bufferedAmountLowThreshold and "
                   "old(self.__bufferedAmount) + amount <= self.__bufferedAmountLowThreshold), "
-                  "len(self.emitted) == old(len(self.emitted)))"],
+                  "len(self.emitted) == old(len(self.emitted)))",
+                  # earlier events stay as they are
+                  "len(self.emitted) >= old(len(self.emitted)) and "
+                  "forall(lambda i: self.emitted[i] == old(self.emitted[i]), 0, old(len(self.emitted)))"],
          # listeners run inside emit() and may call send() on the same channel (the back-pressure idiom): they must see
          # the amount already updated, and nothing may be written after they ran (after_emit obligations)
          at_emit=["self.__bufferedAmount == old(self.__bufferedAmount) + amount"],
@@ -42,7 +45,9 @@ contract(f"{M}:RTCDataChannel._setReadyState", params={"state": "str"},
                   "implies(state != old(self.__readyState) and state == 'closed', len(self.emitted) == old(len(self.emitted)) + 1 and "
                   "self.emitted[len(self.emitted) - 1] == 'close')",
                   "implies(state != old(self.__readyState) and state != 'open' and state != 'closed', "
-                  "len(self.emitted) == old(len(self.emitted)))"],
+                  "len(self.emitted) == old(len(self.emitted)))",
+                  "len(self.emitted) >= old(len(self.emitted)) and "
+                  "forall(lambda i: self.emitted[i] == old(self.emitted[i]), 0, old(len(self.emitted)))"],
          at_emit=["self.__readyState == state"],
          modifies=["self.__readyState", "content(self.emitted)"], tags=["C13"])
 
